@@ -1,0 +1,37 @@
+//go:build verif
+
+// Contracts for package hevc, checked by /verif/govc (comment-only file, compiled only with -tags verif).
+package hevc
+
+//@ axiom ErrNotSEINalu != nil
+
+// Samples carry 4-byte NALU length fields; inputs of 4 GiB or more are outside the domain of these helpers.
+//@ func FindNaluTypes
+//@   requires len(sample) < 1<<32
+//@ func FindNaluTypesUpToFirstVideoNalu
+//@   requires len(sample) < 1<<32
+//@ func ContainsNaluType
+//@   requires len(sample) < 1<<32
+//@ func IsRAPSample
+//@   requires len(sample) < 1<<32
+//@ func IsIDRSample
+//@   requires len(sample) < 1<<32
+//@ func HasParameterSets
+//@   requires len(b) < 1<<32
+//@ func GetParameterSets
+//@   requires len(sample) < 1<<32
+
+//@ func CodecString
+//@   requires sps != nil
+
+//@ func extractSlice
+//@   requires 0 <= start && start <= stop && stop <= len(data)
+//@   ensures len(result) == stop - start && fresh(result)
+//@   assigns nothing
+
+//@ pred scanInv(data []byte, i int, c int, n int) = 0 <= i && n == len(data) && -1 <= c && c <= i+2 && c < n && c != 0 && (c > i ==> c >= 3 && data[c-1] == 1)
+
+//@ func ExtractNalusOfTypeFromByteStream
+//@   loop 1 invariant scanInv(data, i, currNaluStart, n) && i <= n
+//@   loop 2 invariant scanInv(data, i, currNaluStart, n) && i < n-3 && 0 < currNaluStart && currNaluStart <= i && currNaluStart <= j+1 && j < i && currNaluStart <= currNaluEnd && currNaluEnd <= i
+//@   loop 2 decreases j
